@@ -254,11 +254,11 @@ NewD(cfg, s, c) ==
 
 AddD(cfg, s, c) ==
     IF Adds(c) = {} THEN
-        (IF c.op = "CopyDir" THEN D(EnsureF(s), [k |-> "str", loc |-> "-", rel |-> "-"])    \* copy_dir ensures the directory first
+        (IF c.op = "CopyDir" THEN D(EnsureF(s), PathRet("src", "-"))    \* copy_dir ensures the directory first
                              ELSE D(s, [k |-> "false", loc |-> "-", rel |-> "-"]))
     ELSE IF c.op = "CopyDir" /\ Adds(c) \cap Base(s) # {} THEN D(s, Raise)
     ELSE D([EnsureF(s) EXCEPT !.adir.mem = Upd(@, c)],
-           IF c.op = "AddMetadata" \/ c.x = "glob" THEN NoRet ELSE [k |-> "str", loc |-> "-", rel |-> "-"])
+           IF c.op = "AddMetadata" \/ c.x = "glob" THEN NoRet ELSE PathRet("src", "-"))
 
 TarD(cfg, s, c) ==
     IF ~s.tmp THEN D(s, Raise)
